@@ -943,6 +943,8 @@ func (x *Exec) evalBinary(e *ast.BinaryExpr, st *State, sp *SpecCtx) Value {
 				}
 			case o.Term != nil && o.Term.S.K == SU:
 				r = Eq(o.Term, nilU)
+			case o.Dom != nil:
+				r = x.mapNil(o)
 			case o.Len != nil:
 				r = x.freshSym("isnil", BoolS)
 			default:
@@ -1206,6 +1208,14 @@ func (x *Exec) execStmt(s ast.Stmt, st *State, label string) Outcomes {
 		x.runStmtHooks(s, txt, o.Normal, false)
 	}
 	return o
+}
+
+// mapNil: nil-ness of a map value is a function of its key set (the same map value is nil or not, consistently), and a
+// nil map has no keys. A map returned by make may or may not satisfy it (over-approximation: make yields non-nil).
+func (x *Exec) mapNil(v Value) *Term {
+	r := App("uf_mapnil", BoolS, v.Dom)
+	x.assumeGlobal(Implies(r, Eq(v.Dom, ConstArr(v.Dom.S, False))), "nil map has no keys")
+	return r
 }
 
 func (x *Exec) runStmtHooks(s ast.Stmt, txt string, st *State, before bool) {
